@@ -20,7 +20,7 @@ COQ = os.path.join(VERIF, 'coq')
 sys.path.insert(0, os.path.join(VERIF, 'lib'))
 import props  # noqa: E402
 
-GOENV = dict(os.environ, GOFLAGS='-mod=mod', GOPROXY='off', GOSUMDB='off', GOTOOLCHAIN='local',
+GOENV = dict(os.environ, GOFLAGS='-mod=mod', GOPROXY='off', GOSUMDB='off', GOTOOLCHAIN='local', GORACE='halt_on_error=1 exitcode=66',
              CGO_ENABLED=os.environ.get('CGO_ENABLED', '0'))
 FORBIDDEN = re.compile(r'\b(Admitted|admit|Axiom|Axioms|Parameter|Parameters|Conjecture|Conjectures|'
                        r'Unset\s+Guard|bypass_check|Admit\s+Obligations|type-in-type|impredicative-set|'
@@ -158,11 +158,13 @@ def evaluate(work, corr, cases):
 
 # ------------------------------------------------------------------ Go side
 
-def build_harness(work):
+def build_harness(work, race=False):
     hdir = os.path.join(VERIF, 'harness')
     shutil.copy(os.path.join(REPO, 'go.sum'), os.path.join(hdir, 'go.sum'))
-    out = os.path.join(work, 'wharness')
-    r = run(['go', 'build', '-tags', 'verif', '-o', out, './cmd/wharness'], cwd=hdir, env=GOENV)
+    out = os.path.join(work, 'wharness_race' if race else 'wharness')
+    cmd = ['go', 'build'] + (['-race'] if race else []) + ['-tags', 'verif', '-o', out, './cmd/wharness']
+    env = dict(GOENV, CGO_ENABLED='1') if race else GOENV
+    r = run(cmd, cwd=hdir, env=env)
     return (out if r.returncode == 0 else None), r.stdout
 
 
@@ -363,7 +365,12 @@ def main():
             if n == 0:
                 continue
             try:
-                cs = harness_gen(binp, fam['name'], n, seed, mode, tier, par=fam.get('par', 1))
+                usebin = binp
+                if fam.get('race'):
+                    usebin, rout = build_harness(work, race=True)
+                    if usebin is None:
+                        raise RuntimeError('cannot build the race-detector harness:\n' + rout[-2000:])
+                cs = harness_gen(usebin, fam['name'], n, seed, mode, tier, par=fam.get('par', 1))
             except HarnessCrash as e:
                 # the implementation took the harness process down (unrecovered panic, fatal error,
                 # deadlock): the case that was running is the failing input
